@@ -422,7 +422,7 @@ class ClauseCtx:
     def known(self, c):
         """True / False if the (small conjuncts of the) current path condition decide c, else None"""
         eng = self.eng
-        key = (c.get_id(), len(eng.st.pc), eng.st.pc[-1].get_id() if eng.st.pc else 0)
+        key = (c.get_id(), tuple(p.get_id() for p in eng.st.pc))
         if key in eng.known_cache:
             return eng.known_cache[key]
         small = [p for p in eng.st.pc if _small(p, 60)]
